@@ -141,7 +141,8 @@ Inductive mop :=
 | MRc (x : rc_input) (sd : side) (mcs component : bool)
 | MReads (ds : list dir)
 | MFindAuto (g1 g2 : rgraph) (mcs : bool) (choices : list mapping)
-| MFindMol (g1 g2 : rgraph) (choice : mapping).
+| MFindMol (g1 g2 : rgraph) (choice : mapping)
+| MRcMol (x : rc_input) (sd : side) (choice : mapping).     (* find_rc_mapping(..., mcs_mol=True, component=False) *)
 (** [MFindMol]: find_common_subgraph(G1, G2, mcs_mol=True).  WHICH isomorphism maps a matched component onto its partner is VF2's
     choice: [choice] (the combined G1 -> G2 mapping, obtained by the harness from networkx alone) is an input, validated by
     [apply_mol_choice] of C12_Check.v against the greedy component pairing of the model; a rejected parameter is reported. *)
@@ -169,6 +170,12 @@ Definition find_tok (cfg : config) (g1 g2 : rgraph) (mcs : bool) : mstate * tok 
   (st', search_tok st' n
           [ttrace (fcs_trace (c_defs cfg) (c_prune cfg) (c_wc cfg) (project cfg g1) (project cfg g2) mcs)]).
 
+Definition mol_tok (cfg : config) (g1 g2 : rgraph) (choice : mapping) : mstate * tok :=
+  match find_mcs_mol_with (c_defs cfg) (c_prune cfg) (c_wc cfg) (project cfg g1) (project cfg g2) choice with
+  | Some r => (state_of r, search_tok (state_of r) (r_tried r) [])
+  | None => (s_init, L [I (-2)])
+  end.
+
 (** one call: new state and the observable *)
 Definition m_step (cfg : config) (st : mstate) (o : mop) : mstate * tok :=
   match o with
@@ -194,10 +201,11 @@ Definition m_step (cfg : config) (st : mstate) (o : mop) : mstate * tok :=
                   [ttrace (fcs_trace (c_defs cfg) (c_prune cfg) (c_wc cfg) (project cfg g1) (project cfg g2) mcs)])
       | None => (s_init, L [I (-2)])
       end
-  | MFindMol g1 g2 choice =>
-      match find_mcs_mol_with (c_defs cfg) (c_prune cfg) (c_wc cfg) (project cfg g1) (project cfg g2) choice with
-      | Some r => (state_of r, search_tok (state_of r) (r_tried r) [])
-      | None => (s_init, L [I (-2)])
+  | MFindMol g1 g2 choice => mol_tok cfg g1 g2 choice
+  | MRcMol x sd choice =>
+      match pick_sides x sd with
+      | None => (s_init, L (I (-1) :: m_views s_init))
+      | Some (ga, gb) => mol_tok cfg ga gb choice
       end
   end.
 
